@@ -663,6 +663,14 @@ def run(run: Run):
     run.rule('C01.R7', 'comparison operators: no lossy coercion before comparing and operator table of the runtime (shared with C10.R1/R2)')
     borrow(run, 'C01.R7', c10.r1_r4, rt, only_rules={'C10.R1'})
     borrow(run, 'C01.R7', c10.r2, src, rt)
+    # operand values: a reference operand is resolved for the cell that holds the formula, an override reaches the instance
+    from . import c02, c04
+    run.rule('C01.R8', 'operand values: the tree is parsed for its own cell (shared with C02.R8); every override batch is stored and '
+                       'flushed, the formula only runs on an override miss (shared with C04.R1/R2)')
+    borrow(run, 'C01.R8', c02.r8_fresh_parse, src)
+    borrow(run, 'C01.R8', c04.r1, src, rt)
+    borrow(run, 'C01.R8', c04.r2, rt)
+    run.floor('C01.R8', 10)
     run.floor('C01.R7', 100)
     run.floor('C01.R1', 13)
     run.floor('C01.R2', 2)
